@@ -387,5 +387,14 @@ func RunProgram(o *goja.Runtime, p *goja.Program) (v goja.Value, err error) {
 			err = fmt.Errorf("%s", r)
 		}
 	}()
-	return o.RunProgram(p)
+	if v, err = o.RunProgram(p); err != nil {
+		if _, interrupted := err.(*goja.InterruptedError); !interrupted {
+			// A thrown value need not have a string form, in
+			// which case err.Error() panics.  Render the error
+			// once, here, under the recover above, so that callers
+			// get an error that is safe to print.
+			err = errors.New(err.Error())
+		}
+	}
+	return v, err
 }
